@@ -13,14 +13,14 @@ TYPES = "rustc's type system: a value passed as R has type R; no live guard duri
 def plan(profiles, quick=300, thorough=30000, **kw):
     d = {"engine": "plan", "args": {"profiles": profiles}, "quick": {"cases": quick},
          "thorough": {"cases": thorough, "small-scope": True},
-         "search": {"cases": 20000, "small-scope": True}}
+         "search": {"cases": 4000}}
     d["args"].update(kw)
     return d
 
 
 def trace(profiles, quick=60, thorough=3000, nopar=False, **kw):
     d = {"engine": "trace", "args": {"profiles": profiles}, "quick": {"cases": quick},
-         "thorough": {"cases": thorough}, "search": {"cases": 3000}, "nopar": nopar}
+         "thorough": {"cases": thorough}, "search": {"cases": 800}, "nopar": nopar}
     d["args"].update(kw)
     return d
 
